@@ -20,7 +20,7 @@ RULE = (
     "machines_per_operation as int or range with max <= smallest machine "
     "count, allow_recirculation, allow_less_jobs_than_machines (when False "
     "the ranges satisfy jobs_lo >= machines_lo), name_suffix, seed (0 "
-    "included), iteration_limit 0..12 - x a usage pattern (sequential, two "
+    "included), iteration_limit 0..12 - x a usage pattern (helpers = public create_random_operation() calls with and without a pool between instances; sequential, two "
     "generators interleaved, other users of the global random module in "
     "between, generate() mixed with iteration on one of them, explicit generate(num_jobs=..), generate(num_jobs=.., "
     "num_machines=..) calls). Oracle per generated instance: job count in "
@@ -67,7 +67,7 @@ def _params(draw):
         "allow_less_jobs_than_machines": allow_less,
         "allow_recirculation": draw(st.booleans()),
         "machines_per_operation": mpo,
-        "name_suffix": draw(st.sampled_from(["x", "classic_generated_instance", "a_b"])),
+        "name_suffix": draw(st.sampled_from(["x", "classic_generated_instance", "a_b", "bench_v1.2", "set.A b", ""])),
         "seed": draw(st.one_of(st.just(0), st.integers(0, 5), st.integers(0, 10**6))),
         "iteration_limit": draw(st.integers(0, 12)),
     }
@@ -77,7 +77,7 @@ def strategy(tier):
     return st.fixed_dictionaries(
         {
             "params": _params(),
-            "pattern": gen.pick(["sequential", "interleaved", "global_rng", "explicit", "mixed"]),
+            "pattern": gen.pick(["sequential", "interleaved", "global_rng", "explicit", "mixed", "helpers"]),
             "n": st.integers(1, 10),
             "extra": st.lists(st.integers(0, 1000), min_size=1, max_size=6),
         }
@@ -180,6 +180,30 @@ def check_case(case, ctx):
         for i in range(n):
             seq2.append(g2.generate())
             random.randint(0, 10)
+    elif pattern == "helpers":
+        # the public create_random_operation() is called between instances
+        # (with no pool: "all machines are available"; or with a pool of the
+        # caller's), identically on both generators
+        d_lo, d_hi = params["duration_range"]
+        for i in range(n):
+            for g, seq in ((g1, seq1), (g2, seq2)):
+                e = extra[i % len(extra)]
+                for r in range(e % 4):
+                    if (e + r) % 3 == 0:
+                        pool = list(range(m_hi))
+                        o = g.create_random_operation(pool)
+                    else:
+                        o = g.create_random_operation()
+                    ctx.check(
+                        d_lo <= o.duration <= d_hi
+                        and k_lo <= len(o.machines) <= k_hi
+                        and len(set(o.machines)) == len(o.machines)
+                        and all(0 <= x < m_hi for x in o.machines),
+                        "random-operation",
+                        f"create_random_operation gave machines {o.machines}, duration {o.duration}",
+                    )
+                    ctx.count("helper_calls")
+                seq.append(g.generate())
     elif pattern == "mixed":
         # the same number of instances obtained through generate() and
         # through iteration, in different mixes
